@@ -159,9 +159,10 @@ GROUPS += [
                   "backwards); min <= max <= 2^32 s, grace any; one update_round call",
     },
     {
-        "id": "C09.steps", "property": "C09", "crate": "core", "harnesses": ["c09_finished", "c09_recv_"], "jobs": 3,
-        "timeout_s": 300, "mem_gb": 8, "functions": STRAT_FNS + STATE_FNS, "stubs": [NET_STUB],
-        "bounds": "finished: all n >= 1, all round counters; recv_response with a fatal error / a timeout from every INV state",
+        "id": "C09.steps", "property": "C09", "crate": "core", "harnesses": ["c09_finished", "c09_recv_", "c09_error_mapper_table"], "jobs": 3,
+        "timeout_s": 600, "mem_gb": 10, "functions": STRAT_FNS + STATE_FNS + ["net::common::ErrorMapper::{in_progress,addr_in_use,probe_failed}"], "stubs": [NET_STUB],
+        "bounds": "finished: all n >= 1, all round counters; recv_response with a fatal error / a timeout from every INV state; "
+                  "ErrorMapper on representatives of 7 errno classes x 3 socket operations x 4 transient kinds",
     },
     # ------------------------------------------------------------------ C10
     {
